@@ -8,7 +8,7 @@
     independent of the adapter's log); [last_persist pid h None] the session last persisted under
     [pid]; [selected s p] = shouldIncludePacket(session rooms, packet options).
     Hypothesis about the id generator (yeast): ids along a history are distinct. *)
-From SioV Require Import Base.GoSem Adapter.Session Adapter.SessionProofs.
+From SioV Require Import Base.GoSem Adapter.Session Adapter.SessionProofs Adapter.SessionConc Adapter.SessionConcProofs.
 Open Scope Z_scope.
 
 (** A successful restore returns exactly the selected packets emitted after the offset packet, in
@@ -174,3 +174,74 @@ Example C08_addressed_needs_stable_rooms :
   option_map (fun r => option_map (fun x => map p_id (snd x)) r)
              (snd (step 10 2 (ORestore 3%N 1%N) (final 10 h))) = Some (Some [2%N]).
 Proof. vm_compute. auto. Qed.
+
+(** ** Across the reconnection instant, with a broadcast in flight (Adapter/SessionConc.v).
+    One broadcast = {log append; start of the target iteration; visit of the session's socket; end}
+    interleaved, over ALL schedules, with the reconnection (restore + re-join + visible), clean-up
+    passes, persists / restores of other sessions and the log appends of other broadcasts. *)
+
+(** Never neither: the log append comes first ([g_lf]) and the reconnection is atomic ([no_split]):
+    a completed broadcast addressed to the recovered session was replayed or delivered live. *)
+Theorem C08_concurrent_no_gap : forall g sched st0 rest0 c,
+  g_lf g = true -> 0 <= g_W g ->
+  fresh_log (g_W g) (st_packets st0) ->
+  after_offset (g_off g) (st_packets st0) = Some rest0 ->
+  no_split sched -> crun g sched (cinit st0) = Some c ->
+  c_phase c = 3%nat -> c_app c = true -> c_ended c = true -> addressed g c = true ->
+  replayed g c = true \/ (1 <= c_live c)%nat.
+Proof. exact concurrent_no_gap. Qed.
+
+Theorem C08_concurrent_live_once : forall g sched st0 c,
+  g_lf g = true -> ~ In (g_id g) (map p_id (st_packets st0)) ->
+  no_split sched -> crun g sched (cinit st0) = Some c -> (c_live c <= 1)%nat.
+Proof. exact concurrent_live_once. Qed.
+
+(** Never both - REFUTED for the code as it is: a reconnection that lands after the log append
+    and before the end of the target iteration gets the packet replayed and live
+    (known finding reconnect-during-broadcast; replayed on the real adapter by the conc rig). *)
+Definition c08_st0 : state :=
+  final 10 [(0, OBroadcast KEvent 1%N (mkOpts [] [])); (0, OPersist (mkSess 9%N 3%N [1%N]))].
+Definition c08_g (lf : bool) : cfg := mkCfg lf 10 3%N 1%N 2%N (mkOpts [1%N] []).
+
+Theorem C08_concurrent_no_dup_refuted :
+  exists sched c, no_split sched /\ crun (c08_g true) sched (cinit c08_st0) = Some c /\
+    addressed (c08_g true) c = true /\ replayed (c08_g true) c = true /\ c_live c = 1%nat.
+Proof.
+  exists [SAppend; SReconnect; SBegin; SVisit; SEnd]. eexists. split.
+  - repeat constructor.
+  - vm_compute. repeat split; reflexivity.
+Qed.
+
+(** ... and proved under the side condition that excludes exactly that class: the broadcast was
+    not in flight (appended and not ended) at the reconnection instant ([c_quiet]). *)
+Theorem C08_concurrent_no_dup_partial : forall g sched st0 c,
+  g_lf g = true -> ~ In (g_id g) (map p_id (st_packets st0)) ->
+  no_split sched -> crun g sched (cinit st0) = Some c ->
+  c_phase c = 3%nat -> c_quiet c = true ->
+  ~ (replayed g c = true /\ (1 <= c_live c)%nat).
+Proof. exact concurrent_no_dup_partial. Qed.
+
+Example C08_concurrent_quiet_satisfiable :
+  option_map (fun c => (c_quiet c, replayed (c08_g true) c, c_live c))
+             (crun (c08_g true) [SAppend; SBegin; SEnd; SEnv OClean; SReconnect] (cinit c08_st0))
+  = Some (true, true, 0%nat).
+Proof. vm_compute. reflexivity. Qed.
+
+(** A reconnection that is NOT atomic (restore, then later re-join / visible, as namespace.add does)
+    lets a whole broadcast slip in between: REFUTED no-gap (known finding reconnect-not-atomic). *)
+Theorem C08_concurrent_nonatomic_gap_refuted :
+  exists sched c, crun (c08_g true) sched (cinit c08_st0) = Some c /\
+    c_phase c = 3%nat /\ c_app c = true /\ c_ended c = true /\ addressed (c08_g true) c = true /\
+    replayed (c08_g true) c = false /\ c_live c = 0%nat.
+Proof.
+  exists [SRestore; SAppend; SBegin; SEnd; SJoin; SVisible]. eexists.
+  vm_compute. repeat split; reflexivity.
+Qed.
+
+(** What the log-append-first order buys: with the append AFTER the delivery ([g_lf] = false) an
+    atomic reconnection inside the broadcast is recovered with a gap. *)
+Example C08_log_after_delivery_gap :
+  option_map (fun c => (c_phase c, c_app c, c_ended c, addressed (c08_g false) c, replayed (c08_g false) c, c_live c))
+             (crun (c08_g false) [SBegin; SReconnect; SEnd; SAppend] (cinit c08_st0))
+  = Some (3%nat, true, true, true, false, 0%nat).
+Proof. vm_compute. reflexivity. Qed.
